@@ -2,6 +2,7 @@ SPECIFICATION Spec
 CONSTANTS
   Vars = {"va", "vb"}
 INVARIANT EmitFacts
+INVARIANT EmitShadow
 INVARIANT EmitDone
 INVARIANT TypeOK
 INVARIANT JumpsWellFormed
